@@ -30,6 +30,8 @@ type tableResult struct {
 type cmdSpec struct {
 	Readonly       []string `json:"readonly"`
 	MustNotForward []string `json:"must_not_forward"`
+	CarriesValue   []string `json:"reply_carries_stored_value"`
+	NeedsPlain     []string `json:"needs_plain_stored_value"`
 }
 
 func strLits(cl *ast.CompositeLit) []string {
@@ -388,6 +390,9 @@ func runWriterChecks(prog *Program, prop string) []tableResult {
 }
 
 func runTableChecks(prog *Program, prop string) []tableResult {
+	if prop == "C13" {
+		return append(runWriterChecks(prog, prop), compressTableChecks(prog)...)
+	}
 	if prop != "C14" {
 		return runWriterChecks(prog, prop)
 	}
@@ -488,4 +493,48 @@ func TestGovcReplayWriteToReplica(t *testing.T) {
 		}
 	}
 	return "replay on the real code did not reproduce"
+}
+
+// compressTableChecks (C13): ground obligations over the two command tables of the compression filter,
+// extracted from the working tree's syntax: no command whose reply can carry a stored value skips the
+// decompression hook; every command that needs the plain stored value is refused in compress mode.
+func compressTableChecks(prog *Program) []tableResult {
+	var res []tableResult
+	data, err := os.ReadFile(filepath.Join(specDir, "redis_commands.json"))
+	var spec cmdSpec
+	if err != nil || json.Unmarshal(data, &spec) != nil || len(spec.CarriesValue) == 0 || len(spec.NeedsPlain) == 0 {
+		return []tableResult{{Name: "table/spec-file", OK: false, Detail: "cannot read the C13 lists of redis_commands.json"}}
+	}
+	pkg := prog.module + "/proc/redis"
+	skip, ok1 := prog.stringTable(pkg, "wkSkipCheckCmdsInDecps")
+	banned, ok2 := prog.stringTable(pkg, "bannedCmdsInCps")
+	if !ok1 || len(skip) == 0 {
+		res = append(res, tableResult{Name: "table/decompression-skip-table-extracted", OK: false, Detail: "the skip table could not be extracted from the syntax tree"})
+	}
+	if !ok2 || len(banned) == 0 {
+		res = append(res, tableResult{Name: "table/compress-banned-table-extracted", OK: false, Detail: "the banned table could not be extracted from the syntax tree"})
+	}
+	carries := map[string]bool{}
+	for _, c := range spec.CarriesValue {
+		carries[c] = true
+	}
+	sort.Strings(skip)
+	for _, c := range skip {
+		r := tableResult{Name: "table/skipped-command-never-returns-a-stored-value/" + c, OK: !carries[strings.ToLower(c)] && c == strings.ToLower(c)}
+		r.Detail = fmt.Sprintf("wkSkipCheckCmdsInDecps contains %q", c)
+		if !r.OK {
+			r.Detail += ": its reply can carry a value that was stored compressed (or the key is not lower-case and never matches); the decompression hook would not run for it"
+		}
+		res = append(res, r)
+	}
+	has := map[string]bool{}
+	for _, c := range banned {
+		has[c] = true
+	}
+	for _, c := range spec.NeedsPlain {
+		r := tableResult{Name: "table/refused-in-compress-mode/" + c, OK: has[c]}
+		r.Detail = fmt.Sprintf("bannedCmdsInCps must contain %q (it reads or writes inside a stored value)", c)
+		res = append(res, r)
+	}
+	return res
 }
